@@ -422,9 +422,18 @@ func c17Run(start int, dotu bool, hist []mop) (viol *Viol, state string) {
 	base, rootA := scratchDir("c17a")
 	defer os.RemoveAll(base)
 	rootB := filepath.Join(base, "twin", "n2", "n3", "n4", "export")
+	msize := uint32(8216)
+	if start == 4 {
+		// a small msize and a long path to the export: the text of many errors does not fit a reply
+		long := strings.Repeat("L", 120)
+		rootA = filepath.Join(base, "n1", long, "export")
+		rootB = filepath.Join(base, "tw", long, "export")
+		os.MkdirAll(rootA, 0o755)
+		msize = 256
+	}
 	os.MkdirAll(rootB, 0o755)
-	c17Start(rootA, start)
-	c17Start(rootB, start)
+	c17Start(rootA, start%4)
+	c17Start(rootB, start%4)
 	if start == 3 {
 		openUp(base, rootA)
 		openUp(base, rootB)
@@ -434,13 +443,13 @@ func c17Run(start int, dotu bool, hist []mop) (viol *Viol, state string) {
 	}
 	timed := map[string]bool{}
 	body := func() {
-		h := newUfsH(rootA, 8216, dotu)
+		h := newUfsH(rootA, msize, dotu)
 		cl := h.Connect()
 		ver := "9P2000"
 		if dotu {
 			ver = "9P2000.u"
 		}
-		cl.Version(8216, ver)
+		cl.Version(msize, ver)
 		cl.Rpc(tattach(1, 0, wire.NOFID, "", uint32(os.Geteuid()), dotu))
 		tag := uint16(10)
 		for i, o := range hist {
@@ -586,6 +595,17 @@ func c17Scenarios(tier string) []Scenario {
 			for lo := 0; lo < n; lo += 30 {
 				out = append(out, c17Search(1, dotu, lo, lo+30, 1))
 			}
+		}
+	}
+	// start tree 4: tree 0 behind a long path with msize 256 (error texts that have to be shortened)
+	{
+		n := len(c17Alphabet(true))
+		d, step := 1, 30
+		if tier == "thorough" {
+			d, step = 2, 4
+		}
+		for lo := 0; lo < n; lo += step {
+			out = append(out, c17Search(4, true, lo, lo+step, d))
 		}
 	}
 	// start tree 3: the server runs as an ordinary user and the host refuses most of it
